@@ -48,6 +48,12 @@ def renamesOf : Val → Option (List (String × String))
       | _ => Option.none
   | _ => Option.none
 
+/-- every expiry cell of the call is one the model reads (`expiryCovered`): the scalar, or the cells of the non-key columns of an
+expiry table -/
+def expiryOk (on : List String) : PInput → Bool
+  | .scalar c => expiryCovered c
+  | .table t => t.all fun col => on.contains col.1 || col.2.all expiryCovered
+
 def fModel (args : List Cell) : Val := .tuple (.cell (.str "f") :: args.map .cell)
 
 def tag (s : String) (v : Val) : Val := .tuple [.cell (.str s), v]
@@ -73,6 +79,7 @@ def handle1 (op : String) (args : List Sexp) : Option String := do
       let today ← match ← Val.ofSexp today with
         | .cell (.dt us) => some us
         | _ => Option.none
+      if !expiryOk on exp then Option.none else
       match ← perdictable fModel ps on defs ins exp today with
       | .ok (r, log) =>
           -- a parameter of `f` that is neither an input nor a key column nor `data` / `expiry`: the model's `rowArgs` reads `None`
@@ -94,6 +101,7 @@ def handle1 (op : String) (args : List Sexp) : Option String := do
       let today ← match ← Val.ofSexp today with
         | .cell (.dt us) => some us
         | _ => Option.none
+      if !expiryOk on exp then Option.none else
       match ← perdictableR fModel ps on rens defs ins exp today ifn with
       | .ok (r, log) =>
           pure ("ok " ++ (Val.tuple [resultVal r, .list (log.map fun a => .tuple (a.map .cell))]).render)
